@@ -265,6 +265,13 @@ func (o *Order) Finalize(ctx context.Context, db DB, csr *x509.CertificateReques
 
 	var defaultTemplate string
 	if permanentIdentifier != "" {
+		// An order with a permanent identifier is for the key that was
+		// attested. The key is recorded in an authorization of the order when
+		// the challenge is validated; without it there was nothing to compare
+		// the key of the CSR with.
+		if fingerprint == "" {
+			return NewError(ErrorUnauthorizedType, "order %s does not have an attested key", o.ID)
+		}
 		defaultTemplate = x509util.DefaultAttestedLeafTemplate
 		// The other names of the CSR must be exactly the other identifiers of
 		// the order (none for an order with a permanent identifier only); a
